@@ -35,8 +35,16 @@ def node_machine(mid, root=False):
             on[f"xstate.error.actor.{mid}:{k}"] = {"actions": [A("goterr")]}
     else:
         on["FWD"] = {"actions": [A("gotfwd")]}
+    run = {"entry": [A(f"en.{mid}.run")], "exit": [A(f"ex.{mid}.run")], "on": on}
+    if root:
+        # "invoking a machine ... creates exactly one started child, registered under its id": HOST enters a state that
+        # invokes node1 under the invoke id h1, UNHOST leaves it
+        run["initial"] = "idle"
+        run["states"] = {"idle": {"on": {"HOST": {"target": f"#{mid}.run.hosting", "actions": [A("host")]}}},
+                         "hosting": {"invoke": {"src": "node1", "id": "h1"},
+                                     "on": {"UNHOST": {"target": f"#{mid}.run.idle", "actions": [A("unhost")]}}}}
     cfg = {"id": mid, "initial": "run", "context": {},
-           "states": {"run": {"entry": [A(f"en.{mid}.run")], "exit": [A(f"ex.{mid}.run")], "on": on},
+           "states": {"run": run,
                       "end": {"type": "final", "entry": [A(f"en.{mid}.end")]}}}
     return cfg, acts
 
@@ -70,6 +78,7 @@ class RefSim:
     def __init__(self):
         self.root = RefActor(("root",), None, None)
         self.registry = {}
+        self.hosted = None
         self.auto_count = {}
         self.expect = []
         self.stops = {}       # op index -> label stopped
@@ -125,6 +134,28 @@ class RefSim:
         t = int(op.get("t", 0))
         if ev.get("type") == "CMD":
             self.run_acts(self.root, ev.get("acts") or [], t, i)
+        elif ev.get("type") == "HOST":
+            if self.root.alive and not self.root.done and self.hosted is None:
+                for e in [c for c in self.root.children if c.ident == ("explicit", "h1") and c.registered]:
+                    self._kill(e, t)
+                    e.registered = False
+                child = RefActor(("explicit", "h1"), "node1", self.root, None)
+                self.root.children.append(child)
+                self.hosted = child
+        elif ev.get("type") == "UNHOST":
+            if self.root.alive and not self.root.done and self.hosted is not None:
+                h = self.hosted
+                self.hosted = None
+                if h.registered and h.alive:
+                    self._kill(h, t)
+                    h.registered = False
+                    for sid_, ac in list(self.registry.items()):
+                        a_ = ac
+                        while a_ is not None and a_ is not h:
+                            a_ = a_.parent
+                        if a_ is h:
+                            del self.registry[sid_]
+                    self.stops[i] = h.label()
         elif ev.get("type") == "FWD":
             k1, why = self.resolve(self.root, "k1")
             self.expect.append({"tag": ev.get("tag"), "to": k1.label() if k1 else None, "reason": "forward" if k1 else why, "sent_at": t, "due": None,
@@ -243,6 +274,7 @@ class RefSim:
 def gen_c15(engine, mode="mixed"):
     def g(seed):
         rng = random.Random(seed * 7919 + 15)
+        hosts = rng.random() < 0.5
         root_cfg, root_acts = node_machine("m", root=True)
         c1, a1 = node_machine("c1")
         c2, a2 = node_machine("c2")
@@ -302,6 +334,10 @@ def gen_c15(engine, mode="mixed"):
             t = t + rng.choice((0, 0, 10, 10, 20, 50)) * MS
             alive = [a for a in ref.all() if a.alive and a.registered and not a.done]
             r = rng.random()
+            if hosts and rng.random() < 0.14:
+                push({"type": "UNHOST" if ref.hosted is not None else "HOST", "tag": new_tag()}, t)
+                t += 20 * MS   # the asyncio engine starts / stops an invoked machine in a managing task
+                continue
             if r < 0.28:
                 lvl1 = [a for a in alive if a.parent is ref.root and a.ident[0] == "explicit"]
                 if lvl1 and rng.random() < 0.35:
